@@ -336,6 +336,24 @@ theorem getVectorHeaderG_eq (b : Bytes) : getVectorHeaderG b = getVectorHeader b
       simp only
       rw [ite_bool _ (toInt32 n < 0) (by guard_iff)]
 
+theorem putBoolG_eq (v : Bool) : putBoolG v = some (putBool v) := by
+  cases v <;> rfl
+
+theorem getBoolG_eq (b : Bytes) : getBoolG b = getBool b := by
+  unfold getBoolG getBool
+  rw [ite_bool _ (b.length < 4) (by guard_iff)]
+  by_cases h : b.length < 4
+  · rw [if_pos h, if_pos h]
+  · rw [if_neg h, if_neg h]
+    simp only [Facts.C20.boolDecodeTable, List.lookup, typeTrue, typeFalse]
+    by_cases h1 : fromLE (List.take 4 b) = 2574415285
+    · simp [h1]; rfl
+    · by_cases h2 : fromLE (List.take 4 b) = 3162085175
+      · simp [h2]; rfl
+      · have e1 : (fromLE (List.take 4 b) == 2574415285) = false := by simp [h1]
+        have e2 : (fromLE (List.take 4 b) == 3162085175) = false := by simp [h2]
+        simp [h1, h2, e1, e2]
+
 /-! ### Fields -/
 
 theorem bit32_lt (n : Nat) : bit32 n < 2 ^ 32 := by unfold bit32; exact Nat.mod_lt _ (by decide)
